@@ -73,7 +73,7 @@ PROPS = {
         'technique': 'Verus: every accessor of every packet view free of panics/overflow for any buffer >= minimum size; Kani no-panic harnesses',
         'level_text': 'Layer (a): for every public accessor of every packet view Verus discharges every slice index, range, copy length and arithmetic-overflow obligation under the single precondition len >= minimum size (unbounded buffer length), and termination/progress of the two extension iterators. Layer (b) (receive path of trippy-core) is decided by Kani harnesses on the real functions.',
         'level_note': 'Trusted: shims (from_be_bytes, to_be_bytes, address conversions), Buffer::get_bytes contract (Kani-discharged). Bounded stand-ins are labelled and not counted. platform/unix.rs socket code and ArrayVec capacity in dispatch_tcp_probe are outside.',
-        'units': ['pkt_views'],
+        'units': ['pkt_views', 'core_strategy'],
         'kani': {'quick': PKT_NOPANIC_HARNESSES},
         'assumptions': ['setters additionally require a mutable view and (set_payload) a payload that fits: caller obligations, discharged at the call sites in unit core_net_build'],
         'explanation': 'no-panic obligations of packet views',
